@@ -57,9 +57,9 @@ def plan(tier):
         return [{"variant": "plain", "workers": 10, "cases": 9000, "name": "plain"},
                 {"variant": "asan", "workers": 3, "cases": 2500, "name": "asan"},
                 {"variant": "guard", "workers": 3, "cases": 3000, "name": "guard"}]
-    return [{"variant": "plain", "workers": 5, "cases": 700, "name": "plain"},
-            {"variant": "asan", "workers": 1, "cases": 250, "name": "asan"},
-            {"variant": "guard", "workers": 2, "cases": 350, "name": "guard"}]
+    return [{"variant": "plain", "workers": 5, "cases": 500, "name": "plain"},
+            {"variant": "asan", "workers": 1, "cases": 200, "name": "asan"},
+            {"variant": "guard", "workers": 1, "cases": 300, "name": "guard"}]
 
 
 SCENARIOS = ["pickle-dense", "pickle-sparse", "copy", "file", "import-matrix", "import-matrix", "import-setitem",
@@ -74,6 +74,7 @@ def run(ctx):
     from vlib.oracle import refmat as R
 
     assert CCS.selftest()
+    np.seterr(all="ignore")
     FMT = {"i": "q", "d": "d", "z": "dd"}
     ITEM = {"i": 8, "d": 8, "z": 16}
 
@@ -907,10 +908,12 @@ def run(ctx):
             else:
                 A %= val
             c.require(A is B and id(A) == ident, "alias:inplace-new-object", "%s created a new object" % op)
-            if m * n:
-                c.require(not same_vals(list(B), before, tc) or all(x != x or x in (float("inf"), float("-inf")) or x == 0
-                                                                    for x in (abs(t) for t in before)),
-                          "alias:inplace-not-visible", "%s is not visible through the other name" % op)
+            if m * n and op in ("+=", "-="):
+                # adding a nonzero number changes every finite element that is not huge
+                changed = [bits(x, tc) != bits(y, tc) for x, y in zip(before, list(B))
+                           if x == x and abs(x) < 1e15]
+                c.require(all(changed), "alias:inplace-not-visible", "%s is not visible through the other name" % op,
+                          before=before, after=B)
             return
         if how == "matrix(x)":
             B = matrix(A)
